@@ -1,5 +1,5 @@
 """C02 - SSC simfile: serialize then parse gives back the same simfile (structural clauses)."""
-from ..rules import entry, readers, serial, writers, census
+from ..rules import entry, readers, serial, writers, census, baseline
 from ..rules.ident import ident_rule
 
 EXPLANATION = (
@@ -43,6 +43,9 @@ def c7(ctx):
     census.mechanism_census(ctx, ["serialize", "__str__", "items", "keys", "values", "__iter__", "__getitem__", "get", "__init__", "_parse", "__setitem__", "update", "setdefault", "move_to_end", "__eq__", "__ne__", "from_str", "from_msd", "_from_msd", "__delitem__", "pop", "popitem", "clear"], "SSC serialize / parse", modules=["simfile.base", "simfile.ssc", "simfile._private.serializable"])
     entry.constructor_funnel(ctx)
 
+def c_api(ctx):
+    baseline.surface(ctx, "C02: documented surface", modules=['simfile.ssc', 'simfile.base', 'simfile._private.serializable'])
+
 CLAUSES = [
     ("C02.1-2", "notes item by key; NOTEDATA first, notes last; no identity tests on values", c1),
     ("C02.3", "multi-value symmetry on simfile and chart level", c3),
@@ -50,4 +53,5 @@ CLAUSES = [
     ("C02.5", "R-NULL at the sinks; only parameters and whitespace are written; layout", c5),
     ("C02.6", "the text is auto-detected as SSC when VERSION is the first key (whatever its value)", c6),
     ("C02.7", "no unexamined override of the writer / reader / mapping methods in the SSC classes (R-CENSUS)", c7),
+    ("C02.api", "public surface: signatures and defaults, constants, enumerations, blank templates, base classes as confirmed (R-API)", c_api),
 ]
